@@ -714,7 +714,10 @@ class Linbasex(Adapter):
     name = 'linbasex'
     coq_module = 'CacheLinbasex'
     file_prefix = 'linbasex_basis_'
-    ORDERS = [[0, 2], [0, 2], [0, 1, 2], [1, 2], [12], [0], [0, 2, 4]]
+    # (legendre_orders=[0] alone is not generated: P0 = 1 makes the basis independent of
+    #  the angle VALUES, so the angle-key collision is harmless there, while the model
+    #  conservatively counts it as a hazard)
+    ORDERS = [[0, 2], [0, 2], [0, 1, 2], [1, 2], [12], [2], [0, 2, 4]]
     # angles in units of pi/400; a = 0 or a % 4 != 0 (see CacheLinbasex.v)
     ANGLES = [[0, 202], [0, 202], [0, 201], [0, 102], [22, 2], [202], [0, 182, 362]]
 
@@ -926,13 +929,13 @@ class Rbasex(Adapter):
         direction = 'forward' if rng.random() < 0.3 else 'inverse'
         # reg='pos' only where the library supports it (inverse; not odd with order > 1)
         regs = [0, 0, 0, 2, 3, 4, 8, 9] + ([1] if direction == 'inverse' and not (eff_odd and order > 1) else [])
-        return dict(shape=sh, origin=int(rng.integers(2)),
+        return self.fix_call(dict(shape=sh, origin=int(rng.integers(2)),
                     rmax=int(rng.choice([0, 0, 0, 1, 2])), order=order, odd=odd,
                     wid=int(wids[rng.integers(len(wids))]) if rng.random() < 0.5 else 0,
                     direction=direction,
                     reg=int(regs[rng.integers(len(regs))]), out=int(rng.integers(len(self.OUTS))),
                     bd=[None, '', 1, 1, 2, BADDIR][rng.integers(6)] if rng.random() < 0.6 else None,
-                    seed=int(rng.integers(1 << 30)))
+                    seed=int(rng.integers(1 << 30))))
 
     def gen_getbs(self, rng):
         order = int(rng.choice([0, 1, 2, 2, 4]))
@@ -987,6 +990,12 @@ class Rbasex(Adapter):
         if c.get('kind') == 'getbs':
             return c
         if c['wid'] and self.WSHAPE[c['wid']] != self.SHAPES[c['shape']]:
+            c['wid'] = 0
+        # an invalid rmax together with weights makes the Distributions CONSTRUCTOR raise and
+        # leaves the previous object under the new key; what that object then does with an image
+        # of another shape is not modelled: random histories use weights=None there (the
+        # directed scenario keeps the same-shape case)
+        if self.RMAXS[c['rmax']] == 'foo':
             c['wid'] = 0
         if c['reg'] == 1 and (c['direction'] != 'inverse' or (self.eff_odd(c) and c['order'] > 1)):
             c['reg'] = 0
